@@ -271,9 +271,64 @@ def derivative_search(ctx, budget, honesty):
     else:
         shared_generator_probe(ctx, max(6, budget // 60))
         multistep_complex_family(ctx, max(80, budget // 5))
+        elementary_table_family(ctx, None if ctx.thorough else 2)
     ctx.notes.append('%d programs skipped: not finite at the complex points of the stencil' % skipped_nonfinite[0])
     ctx.notes.append('worst ratio / envelope per (method, n) on this run: %s'
                      % {('%s,%d' % k): float('%.2g' % v) for k, v in sorted(worst.items())})
+
+
+def elementary_cases():
+    """well-conditioned elementary functions with closed-form derivatives of every order, at fixed points: (name, f, x, exact(n))"""
+    out = []
+    for x in (0.5, 1.25, -0.75):
+        out.append(('exp', np.exp, x, lambda n, x=x: math.exp(x)))
+        out.append(('sin', np.sin, x, lambda n, x=x: math.sin(x + n * math.pi / 2)))
+        # 1/(2+x): n-th derivative (-1)^n n! / (2+x)^(n+1)
+        out.append(('1/(2+x)', lambda t: 1.0 / (2.0 + t), x, lambda n, x=x: (-1) ** n * math.factorial(n) / (2.0 + x) ** (n + 1)))
+        # log(3+x): f itself for n = 0, else (-1)^(n-1) (n-1)! / (3+x)^n
+        out.append(('log(3+x)', lambda t: np.log(3.0 + t), x,
+                    lambda n, x=x: math.log(3.0 + x) if n == 0 else (-1) ** (n - 1) * math.factorial(n - 1) / (3.0 + x) ** n))
+    return out
+
+
+_ELEM = {}
+
+
+def elementary_table_family(ctx, per_config):
+    """Every (method, n, order) with the default step generator on a fixed list of well-conditioned elementary functions: the
+    relative error must stay within 30 x the worst value the unchanged tree attains for that (method, n, order) on the same list
+    (harness/calib/elementary_table.json; deterministic inputs, so the unchanged tree reproduces its calibration exactly).  This is
+    the fine-grained form of the per-(method, n) envelope: a rule that is accurate to 1e-8 where it used to be accurate to 1e-13
+    is reported even though 1e-8 is inside the envelope that random programs need."""
+    import json
+    import os
+    import numdifftools as nd
+    if not _ELEM:
+        path = os.path.join(os.path.dirname(os.path.abspath(__file__)), 'calib', 'elementary_table.json')
+        _ELEM.update(json.load(open(path)))
+    rng = ctx.rng
+    cases = elementary_cases()
+    worst = 0.0
+    for m in NMAX:
+        for n in range(1, NMAX[m] + 1):
+            for order in range(1, 9):
+                for name, f, x, exact in (cases if per_config is None else rng.sample(cases, per_config)):
+                    ctx.tried(('elementary', m, n, order, name, x))
+                    try:
+                        with warnings.catch_warnings():
+                            warnings.simplefilter('ignore')
+                            v = float(nd.Derivative(f, n=n, method=m, order=order)(x))
+                    except Exception as ex:
+                        ctx.violation('Derivative raised %r' % ex, program=name, x=x, method=m, n=n, order=order)
+                        continue
+                    e = abs(v - exact(n)) / max(abs(exact(n)), abs(exact(0)), 1e-300)
+                    env = 30.0 * max(_ELEM['%s/%d/%d' % (m, n, order)], 1e-14)
+                    worst = max(worst, e / env)
+                    if not e <= env:
+                        ctx.violation('Derivative of an elementary function (default steps) lost accuracy: outside 30 x the calibrated worst '
+                                      'relative error of (%s, n=%d, order=%d)' % (m, n, order), program=name, x=x, method=m, n=n, order=order,
+                                      got=v, exact=exact(n), relative_error=e, envelope=env)
+    ctx.notes.append('elementary table family: worst relative error / envelope = %.3g' % worst)
 
 
 def multistep_complex_family(ctx, budget):
